@@ -351,7 +351,7 @@ class Gen:
         elif ub in STRING_BUILTINS:
             k = r.random()
             if k < 0.3:
-                f.enumeration = sorted(set(r.choice(["A", "b", "North East", "x-1", "é", "Q&A", "10", "None"]) for _ in range(r.randrange(1, 6))))
+                f.enumeration = sorted(set(r.choice(["A", "b", "North East", "x-1", "é", "Q&A", "10", "None", "", '2.5"', "C:\\dir"]) for _ in range(r.randrange(1, 6))))
                 import random as _random
                 if len(f.enumeration) >= 2 and _random.Random("enum-dup:" + nm.xml).random() < 0.3:
                     # the same value listed twice (legal, and harmless for the value space)
